@@ -98,7 +98,13 @@ type Sched struct {
 	// decisions beyond the end of choices (Input.TailSeed / TailPct)
 	tailSeed uint64
 	tailPct  int
+	// ... or priority scheduling (Input.PCTSeed / PCTDepth / PCTSpan), see pctPick
+	pctSeed  uint64
+	pctDepth int
+	pctSpan  int
+	pctLow   map[string]int
 	cidx     int
+	made     []int // every decision taken, as the choice code that reproduces it
 	siteOff  map[string]bool
 
 	lines     []string // event log (pure function of the decisions)
@@ -261,37 +267,113 @@ func (s *Sched) pick(all []*Task) *Task {
 	if len(ps) == 0 {
 		ps = all
 	}
-	c := 0
-	if !s.noChoice {
-		if s.cidx < len(s.choices) {
-			c = s.choices[s.cidx]
-		} else if s.tailPct > 0 {
-			c = tailChoice(s.tailSeed, s.tailPct, s.cidx)
-		}
-		s.cidx++
-	}
 	var lastIdx = -1
 	for i, p := range ps {
 		if p == s.last || (p.alias != nil && p.alias == s.last) {
 			lastIdx = i
 		}
 	}
-	if lastIdx >= 0 {
-		if c == 0 || len(ps) == 1 {
-			return ps[lastIdx]
+	c := 0
+	var chosen *Task
+	if !s.noChoice {
+		if s.cidx < len(s.choices) {
+			c = s.choices[s.cidx]
+		} else if s.pctDepth > 0 {
+			chosen = s.pctPick(ps)
+		} else if s.tailPct > 0 {
+			c = tailChoice(s.tailSeed, s.tailPct, s.cidx)
 		}
-		others := make([]*Task, 0, len(ps)-1)
-		for i, p := range ps {
-			if i != lastIdx {
-				others = append(others, p)
+		s.cidx++
+	}
+	if chosen == nil {
+		switch {
+		case lastIdx >= 0 && (c == 0 || len(ps) == 1):
+			chosen = ps[lastIdx]
+		case lastIdx >= 0:
+			others := make([]*Task, 0, len(ps)-1)
+			for i, p := range ps {
+				if i != lastIdx {
+					others = append(others, p)
+				}
 			}
+			chosen = others[(c-1)%len(others)]
+		default:
+			chosen = ps[c%len(ps)]
 		}
-		if !s.noChoice {
+	}
+	if !s.noChoice {
+		// the code that makes an explicit choice list take the same decision (for the shrinker)
+		code, k := 0, 0
+		for i, p := range ps {
+			if i == lastIdx {
+				continue
+			}
+			if p == chosen {
+				code = k
+				if lastIdx >= 0 {
+					code = k + 1
+				}
+			}
+			k++
+		}
+		s.made = append(s.made, code)
+		if lastIdx >= 0 && chosen != ps[lastIdx] {
 			s.preempts++
 		}
-		return others[(c-1)%len(others)]
 	}
-	return ps[c%len(ps)]
+	return chosen
+}
+
+// pctPick is priority scheduling in the manner of PCT (Burckhardt et al., ASPLOS 2010): every
+// task has a fixed random priority (a pure function of the seed and the task's name), the
+// parked task with the highest priority runs, and at depth-1 decision indices drawn in
+// [0, span) the task about to run is demoted below every initial priority. Long stretches of
+// one task with a few well-placed switches: the shape of most ordering bugs.
+func (s *Sched) pctPick(ps []*Task) *Task {
+	prio := func(t *Task) int {
+		name := t.Name
+		if t.alias != nil {
+			name = t.alias.Name
+		}
+		if v, ok := s.pctLow[name]; ok {
+			return v
+		}
+		h := splitmix64(s.pctSeed)
+		for _, b := range []byte(name) {
+			h = splitmix64(h ^ uint64(b))
+		}
+		return s.pctDepth + 1 + int(h%1000000)
+	}
+	best := ps[0]
+	for _, p := range ps[1:] {
+		if prio(p) > prio(best) {
+			best = p
+		}
+	}
+	span := s.pctSpan
+	if span < 1 {
+		span = 1
+	}
+	for i := 1; i < s.pctDepth; i++ {
+		if int(splitmix64(s.pctSeed+uint64(i)*0x632be59bd9b4e019)%uint64(span)) == s.cidx {
+			if s.pctLow == nil {
+				s.pctLow = map[string]int{}
+			}
+			name := best.Name
+			if best.alias != nil {
+				name = best.alias.Name
+			}
+			s.pctLow[name] = s.pctDepth - i
+			// re-evaluate with the demotion in force
+			best = ps[0]
+			for _, p := range ps[1:] {
+				if prio(p) > prio(best) {
+					best = p
+				}
+			}
+		}
+	}
+	return best
 }
 
 // quiesce waits until every goroutine in the bubble other than the scheduler
